@@ -179,9 +179,9 @@ EqualsSum(v, s) == IF s[1] = 0 THEN v[1] = 0
 \* "Applying efficiencies multiplies each detector-pair entry by the product of the factors of its
 \* two detectors"; sgn = -1: un-applying.  Zero entries stay zero.
 EffIdx(fg, r, d) == r * fg.N + d + 1
-ApplyEffS(fg, cells, F, x, sgn) ==
-  MkV([ i \in 1..Len(cells) |-> Shift(ValAt(F, i), sgn * (x[EffIdx(fg, cells[i][1], cells[i][2])] + x[EffIdx(fg, cells[i][3], cells[i][4])])) ],
-      Len(cells))
+ApplyEffAt(fg, cells, F, x, sgn, i) ==
+  Shift(ValAt(F, i), sgn * (x[EffIdx(fg, cells[i][1], cells[i][2])] + x[EffIdx(fg, cells[i][3], cells[i][4])]))
+ApplyEffS(fg, cells, F, x, sgn) == MkV([ i \in 1..Len(cells) |-> ApplyEffAt(fg, cells, F, x, sgn, i) ], Len(cells))
 
 \* geometric classes.  Geometric factors are stored once per class representative ("slot"):
 \* first crystal in the first axial block (ring < PA) and in the first half of the first transaxial
@@ -233,8 +233,8 @@ ApplyGeoOk(F, G, slotsOf, out, apply) ==
             ELSE IsQuotient(ValAt(out, i), ValAt(F, i), ValAt(G, s))
 \* G is constant on classes (as far as they contain fan entries)
 ClassConsistent(G, slotsOf) == \A i \in 1..Len(slotsOf) : \A s, t \in slotsOf[i] : ValAt(G, s) = ValAt(G, t)
-ApplyGeoS(F, G, slotsOf) ==
-  MkV([ i \in 1..Len(F.m) |-> IF slotsOf[i] = {} THEN Zero ELSE Times(ValAt(F, i), ValAt(G, CHOOSE s \in slotsOf[i] : TRUE)) ], Len(F.m))
+ApplyGeoAt(F, G, slotsOf, i) == IF slotsOf[i] = {} THEN Zero ELSE Times(ValAt(F, i), ValAt(G, CHOOSE s \in slotsOf[i] : TRUE))
+ApplyGeoS(F, G, slotsOf) == MkV([ i \in 1..Len(F.m) |-> ApplyGeoAt(F, G, slotsOf, i) ], Len(F.m))
 
 \* block factors: block data is fan data over the blocks; the block pair of an entry
 BlockOfCell(g, c) == << c[1] \div PhA(g), c[2] \div PhT(g), c[3] \div PhA(g), c[4] \div PhT(g) >>
@@ -253,17 +253,19 @@ ApplyBlockOk(g, cells, blkOff, F, B, out, apply) ==
             LET w == ValAt(B, CellIndex(bg, blkOff, l)) IN
             IF apply THEN ValAt(out, i) = Times(ValAt(F, i), w) ELSE IsQuotient(ValAt(out, i), ValAt(F, i), w)
 BlockSymmetric(bcells, blkOff, bg, B) == \A i \in 1..Len(bcells) : ValAt(B, i) = ValAt(B, CellIndex(bg, blkOff, SwapCell(bcells[i])))
-ApplyBlockS(g, cells, blkOff, F, B) ==
-  MkV([ i \in 1..Len(cells) |-> Times(ValAt(F, i), ValAt(B, CellIndex(BlockGeomOf(g), blkOff, BlockOfCell(g, cells[i])))) ], Len(cells))
+ApplyBlockAt(g, cells, blkOff, F, B, i) == Times(ValAt(F, i), ValAt(B, CellIndex(BlockGeomOf(g), blkOff, BlockOfCell(g, cells[i]))))
+ApplyBlockS(g, cells, blkOff, F, B) == MkV([ i \in 1..Len(cells) |-> ApplyBlockAt(g, cells, blkOff, F, B, i) ], Len(cells))
 
 (* ----------------------- part 3: ML iterations ------------------------- *)
 \* fan sums: for every crystal the sum over its fan (all entries <<ra,a,*,*>>, contiguous in the
 \* canonical order)
 FanLo(fg, raOff, ra, a) == raOff[ra] + a * NumRb(fg, ra) * FanW(fg) + 1
 FanHi(fg, raOff, ra, a) == raOff[ra] + (a + 1) * NumRb(fg, ra) * FanW(fg)
-FanSumsOk(fg, raOff, F, S) ==
+\* Fat(i): the value of entry i
+FanSumsOkF(fg, raOff, Fat(_), S) ==
   \A ra \in 0..(fg.R - 1) : \A a \in 0..(fg.N - 1) :
-     EqualsSum(ValAt(S, EffIdx(fg, ra, a)), SumVals(F, FanLo(fg, raOff, ra, a), FanHi(fg, raOff, ra, a)))
+     EqualsSum(ValAt(S, EffIdx(fg, ra, a)), SumF(Fat, FanLo(fg, raOff, ra, a), FanHi(fg, raOff, ra, a)))
+FanSumsOk(fg, raOff, F, S) == FanSumsOkF(fg, raOff, LAMBDA i : << F.m[i], F.e[i] >>, S)
 \* the efficiency update (Hogg et al. 2001): crystal by crystal, in the order ring, detector,
 \*    eff(ra,a) := fansum(ra,a) / sum_{(rb,b) in fan} eff(rb,b) * model(ra,a,rb,b)
 \* with the efficiencies already updated for earlier crystals; 0 when the fan sum is 0.
